@@ -4,6 +4,7 @@ use chrono::{FixedOffset, NaiveTime, TimeDelta, Timelike};
 use chrono_mc::core::*;
 use chrono_mc::lattice::*;
 use chrono_mc::refcal::*;
+use chrono_mc::refleap::{ref_add, ref_diff};
 use serde_json::json;
 use std::time::Instant;
 
@@ -22,49 +23,6 @@ const NDT_REF: usize = 10;
 const DEPTH2: usize = 11;
 
 const E9: u32 = 1_000_000_000;
-
-/// RefLeapTime: the documented rule as an extended time line
-fn ref_add(secs: u32, frac: u32, d: i128) -> ((u32, u32), i64, usize) {
-    let x = secs as i128 * NS + frac as i128;
-    let x2 = x + d;
-    let mut cls = usize::MAX;
-    let y = if frac >= E9 {
-        let lo = (secs as i128 + 1) * NS;
-        let hi = (secs as i128 + 2) * NS;
-        if x2 >= lo && x2 < hi {
-            return ((secs, (x2 - secs as i128 * NS) as u32), 0, STAY);
-        }
-        if x2 >= hi {
-            cls = FWD;
-            x2 - NS
-        } else {
-            cls = BACK;
-            x2
-        }
-    } else {
-        x2
-    };
-    let s = y.div_euclid(NS);
-    let f = y.rem_euclid(NS) as u32;
-    let day = s.div_euclid(86400);
-    if day != 0 && cls == usize::MAX {
-        cls = WRAP;
-    }
-    ((s.rem_euclid(86400) as u32, f), (day * 86400) as i64, cls)
-}
-
-fn ref_diff(a: (u32, u32), b: (u32, u32)) -> i128 {
-    // leap seconds exist exactly where an operand says so
-    let mut leaps: Vec<u32> = vec![];
-    if a.1 >= E9 {
-        leaps.push(a.0);
-    }
-    if b.1 >= E9 && !leaps.contains(&b.0) {
-        leaps.push(b.0);
-    }
-    let pos = |t: (u32, u32)| t.0 as i128 * NS + t.1 as i128 + NS * leaps.iter().filter(|&&s| s < t.0).count() as i128;
-    pos(a) - pos(b)
-}
 
 /// a time with a leap-second representation on any second
 fn mk_t(secs: u32, frac: u32) -> NaiveTime {
